@@ -104,6 +104,9 @@ class Ctx:
         for k, (i, mt, at, what) in enumerate(planted):
             v = verdicts[len(plain) + k]
             self.sabotage["planted"] += 1
+            orig = verdicts[i]
+            if orig is not None and v is not None and v["at"] == orig["at"] and (at is None or orig["at"] <= at):
+                continue   # the unsabotaged trace is itself rejected no later: reported below, nothing to learn here
             if v is None or (at is not None and v["at"] != at):
                 raise MachineryError("%s: sabotaged trace (%s at event %s) was %s - the trace specification does not bind"
                                      % (label, what, at, "accepted" if v is None else "rejected at %d" % v["at"]))
